@@ -27,6 +27,12 @@ class C12(flow.Spec):
             '0/1/2/63/64/65/255, strings with and without terminator) with the package end placed before/inside/after the token; '
             'parse cases: arbitrary bytes, opcode soup, and truncations / bit flips / byte substitutions / length-field '
             'corruptions / splices of grammar-generated tables and of the repository test tables (DSDT, SSDT, parser-testsuite); '
+            'field lists (Field / IndexField / BankField) in which every field-element kind is repeated 2-4 times with boundary '
+            'PkgLengths (0, 1, exact, exact+-1, overlong; all four encodings) incl. Connection(Buffer) with zero / one / short / exact / '
+            'overlong lengths for every size operand (none, byte, word, dword) - a deterministic grid in every run plus random ones; '
+            'objects with the names PrettyPrint treats specially (_HID -> EISA id; also _CID, _ADR, _UID, ...) with values of every '
+            'encoding (zero/one/ones, byte, word, dword, qword, string, buffer, package), every 5-bit EISA letter code in every position, '
+            'always followed by PrettyPrint in the child process; '
             'non-trivial = parse case with at least 4 bytes or lexer case with a non-empty token; distinct = distinct inputs')
     assumptions = ['kfmt.Fprintf of diagnostics to the error writer is not modelled (the harness passes a discarding writer)',
                    'header.Length equals the length of the mapped table (validated by the ACPI table loader, property C14)',
